@@ -34,7 +34,7 @@ TimePasses == /\ l <= Len(Log) /\ Log[l].t > now /\ ~Ready
               /\ \A w \in Sleepers : w >= Log[l].t
               /\ now' = Log[l].t /\ mon' = [mon EXCEPT !.last = <<>>]
               /\ UNCHANGED <<st, lock, cpc, ck, cconn, cwake, cs, nconn, writer, rpc, rcancel, rconn, rwake, avail, q, ppc,
-                             pcancel, clpc, clwake, refusals, feeds, eofs, spawned, spc, sconn, swake, tn, l, quiet>>
+                             pcancel, clpc, clwake, refusals, feeds, eofs, spawned, spc, sconn, swake, nsent, tn, l, quiet>>
 TNext == ModelStep \/ TimePasses
 TSpec == TInit /\ [][TNext]_tvars
 
